@@ -137,6 +137,11 @@ static uint8_t *guard_slot(int slot, size_t n)
 }
 uint8_t *guard_tail(int slot, size_t n) { uint8_t *b = guard_slot(slot, n); return b + gslot[slot].cap - n; }
 uint8_t *guard_head(int slot, size_t n) { return guard_slot(slot, n); }
+/* a slot that holds a pure input can be made read-only for the duration of a library call */
+void guard_readonly(int slot, int on)
+{
+    if (slot >= 0 && slot < 8 && gslot[slot].base) mprotect(gslot[slot].base + 4096, gslot[slot].cap, on ? PROT_READ : PROT_READ | PROT_WRITE);
+}
 
 /* Crash attribution for the enumerating harnesses that have no forked runner: the case about to be executed is
  * registered (cheaply: a kind, a few integers, a pointer to the case bytes); a fatal signal inside it is reported as
